@@ -4,8 +4,8 @@ open Hermes Hermes.Proto
 
 namespace Hermes.Driver
 
-def mkLayers : List Float → List Float → List Float → List Float → List (SoilTemp.Layer Float)
-  | bd :: bds, wg :: wgs, hum :: hums, e :: es => { bd, wg, hum, e } :: mkLayers bds wgs hums es
+def mkLayers_Soiltemp : List Float → List Float → List Float → List Float → List (SoilTemp.Layer Float)
+  | bd :: bds, wg :: wgs, hum :: hums, e :: es => { bd, wg, hum, e } :: mkLayers_Soiltemp bds wgs hums es
   | _, _, _, _ => []
 
 /-- `soiltemp.day N  lai expNegLai rad eta temp tmin tmax sq tbase dt dz  tsoil[N+1] bd[N] wg[N] hum[N] e[N]`
@@ -21,7 +21,7 @@ def soiltempDay (toks : List String) : Option String := do
   match sc with
   | [lai, expNegLai, rad, eta, temp, tmin, tmax, sq, tbase, dt, dz] =>
     let i : SoilTemp.DayIn Float :=
-      { lai, expNegLai, rad, eta, temp, tmin, tmax, sq, tbase, dt, dz, layers := mkLayers bd wg hum e }
+      { lai, expNegLai, rad, eta, temp, tmin, tmax, sq, tbase, dt, dz, layers := mkLayers_Soiltemp bd wg hum e }
     let o := SoilTemp.day i tsoil
     some (fmtFloats ([o.radiat, o.surf] ++ o.td ++ o.tsoil ++ o.cond ++ o.cap))
   | _ => none
